@@ -1,6 +1,7 @@
 package fat12
 
 import (
+	"bytes"
 	"io"
 
 	"github.com/diskfs/go-diskfs/backend"
@@ -18,8 +19,8 @@ import (
 // covers the file size. Chains longer than the size needs are included.
 
 // c10ModelTable is a FATTable stub at the interface (fat32 semantics, 28-bit cluster numbers):
-// the chain is chain[0] -> chain[1] -> ... -> EOC with arbitrary cluster numbers, every other
-// entry is arbitrary. It keeps cluster numbers fully symbolic (a real table is an in-memory
+// the chain is chain[0] -> chain[1] -> ... -> EOC with arbitrary (distinct) cluster numbers, every
+// other entry reads as EOC. It keeps cluster numbers fully symbolic (a real table is an in-memory
 // slice whose length would have to be 2^28).
 type c10ModelTable struct {
 	chain []uint32
@@ -88,15 +89,15 @@ type c10RecDev struct {
 
 func (d *c10RecDev) ReadAt(p []byte, off int64) (int, error) {
 	k := len(d.offs)
-	fresh := vp.Bytes("rd"+string(rune('0'+k)), cap10)
+	fresh := vp.Bytes("rd"+string(rune('0'+k)), c10RecCap)
 	d.offs = append(d.offs, off)
 	d.lens = append(d.lens, len(p))
 	d.data = append(d.data, fresh)
-	vp.FillFunc(p, func(i int) byte { return fresh[vp.IteInt(i < cap10, i, 0)] })
+	vp.FillFunc(p, func(i int) byte { return fresh[vp.IteInt(i < c10RecCap, i, 0)] })
 	return len(p), nil
 }
 
-const cap10 = 10 // fresh bytes per recorded call (>= the buffer sizes used with c10RecDev)
+const c10RecCap = 10 // fresh bytes per recorded call (>= the buffer sizes used with c10RecDev)
 
 const (
 	c10Fat12Real = iota // the real fat12Table, 12 entries, every entry arbitrary
@@ -179,8 +180,7 @@ func c10FatPos(fs *FileSystem, chain []uint32, bpc int, p int64) int64 {
 }
 
 // c10FatRead: Read into a buffer of arbitrary length 0..N from an arbitrary cursor.
-// The buffer positions listed in probes are compared (nil = all of them).
-func c10FatRead(kind, L, bpc, N int, lanes uint, probes []int) {
+func c10FatRead(kind, L, bpc, N int, lanes uint) {
 	dev := c10NewLaneDev(lanes)
 	fs, chain := c10FatFS(dev, kind, L, bpc, false)
 	size := vp.U32("size")
@@ -219,14 +219,7 @@ func c10FatRead(kind, L, bpc, N int, lanes uint, probes []int) {
 	vp.AssertUnless("KF-C10-1", kf1, int64(n) == want, "n = min(len(b), bytes remaining)")
 	vp.AssertUnless("KF-C10-1", kf1, fl.offset == off+want, "cursor advances by the bytes delivered")
 	vp.Unwind(16)
-	for pi := 0; pi < N; pi++ {
-		i := pi
-		if probes != nil {
-			if pi >= len(probes) {
-				break
-			}
-			i = probes[pi]
-		}
+	for i := 0; i < N; i++ {
 		if int64(i) < want {
 			vp.Assert(buf[i] == dev.ByteAt(c10FatPos(fs, chain, bpc, off+int64(i))), "delivered byte = file byte at cursor+i")
 		} else {
@@ -270,20 +263,20 @@ func c10ReadResult(err error, off, want, size int64, k int) {
 
 // small mode: cluster = 4 bytes, buffer up to 2 clusters + 1 (all relative positions of cursor,
 // cluster boundary, buffer end and file end occur); every buffer byte compared.
-func VP_C10_fat_read_fat12_L1() { c10FatRead(c10Fat12Real, 1, 4, 9, 1, nil) }
-func VP_C10_fat_read_fat12_L2() { c10FatRead(c10Fat12Real, 2, 4, 9, 1, nil) }
-func VP_C10_fat_read_fat12_L3() { c10FatRead(c10Fat12Real, 3, 4, 9, 1, nil) }
+func VP_C10_fat_read_fat12_L1() { c10FatRead(c10Fat12Real, 1, 4, 9, 1) }
+func VP_C10_fat_read_fat12_L2() { c10FatRead(c10Fat12Real, 2, 4, 9, 1) }
+func VP_C10_fat_read_fat12_L3() { c10FatRead(c10Fat12Real, 3, 4, 9, 1) }
 func VP_C10_fat_read_fat12_L4() {
 	if vp.Thorough() {
-		c10FatRead(c10Fat12Real, 4, 4, 13, 1, nil)
+		c10FatRead(c10Fat12Real, 4, 4, 13, 1)
 	}
 }
 func VP_C10_fat_read_model_L1() {
 	if vp.Thorough() {
-		c10FatRead(c10FatModel, 1, 4, 9, 1, nil)
+		c10FatRead(c10FatModel, 1, 4, 9, 1)
 	}
 }
-func VP_C10_fat_read_model_L3() { c10FatRead(c10FatModel, 3, 4, 9, 1, nil) }
+func VP_C10_fat_read_model_L3() { c10FatRead(c10FatModel, 3, 4, 9, 1) }
 
 // c10FatGeometry: arbitrary partition start, data-region start and 28-bit cluster number with a
 // real cluster size; a one-cluster file. Every device access must be at
@@ -333,7 +326,7 @@ func c10FatGeometry(bpc int) {
 			if i >= done {
 				if i < done+dev.lens[c] {
 					if int64(i) < want {
-						vp.Assert(buf[i] == dev.data[c][vp.IteInt(i-done < cap10, i-done, 0)], "buffer byte = byte delivered by the device for that position")
+						vp.Assert(buf[i] == dev.data[c][vp.IteInt(i-done < c10RecCap, i-done, 0)], "buffer byte = byte delivered by the device for that position")
 					}
 				}
 			}
@@ -446,6 +439,83 @@ func VP_C10_fat_read_empty_nocluster() {
 	n, err := fl.Read(buf)
 	vp.AllowPanic()
 	vp.Assert(n == 0, "nothing to deliver")
+	vp.Cover("empty file read returned")
 	vp.AssertUnless("KF-C10-2", true, err == io.EOF, "an empty file without a cluster reports io.EOF")
 	vp.Cover("empty file read")
+}
+
+// VP_C10_fat_sequence_vs_bytes_reader: the executable specification itself on a two-cluster file
+// (real fat12 table, 4-byte clusters, 0..8 bytes): Seek(arbitrary offset, whence) and two Reads
+// of arbitrary length 0..5 on the FAT handle and on a bytes.Reader over the file's content.
+func VP_C10_fat_sequence_vs_bytes_reader() {
+	const bpc, L, M, K = 4, 2, 8, 5
+	dev := c10NewLaneDev(1)
+	fs, chain := c10FatFS(dev, c10Fat12Real, L, bpc, false)
+	size := vp.U32("size")
+	vp.Assume(size <= M)
+	de := &directoryEntry{clusterLocation: chain[0], fileSize: size, filesystem: fs}
+	fl := &File{directoryEntry: de, filesystem: fs}
+	content := make([]byte, M)
+	for i := range content {
+		content[i] = dev.ByteAt(c10FatPos(fs, chain, bpc, int64(i)))
+	}
+	ref := bytes.NewReader(content[:size])
+
+	so := vp.I64("seekoff")
+	wh := vp.Int("whence")
+	vp.Assume(wh >= 0)
+	vp.Assume(wh <= 2)
+	vp.NoPanic()
+	p1, e1 := fl.Seek(so, wh)
+	vp.AllowPanic()
+	p2, e2 := ref.Seek(so, wh)
+	if e2 != nil {
+		vp.Assert(e1 != nil, "Seek fails where bytes.Reader.Seek fails")
+		vp.Cover("both seeks rejected")
+	} else {
+		vp.Assert(e1 == nil, "Seek succeeds where bytes.Reader.Seek succeeds")
+		vp.Assert(p1 == p2, "Seek returns what bytes.Reader.Seek returns")
+	}
+	for step := 0; step < 2; step++ {
+		k := vp.Int("len" + string(rune('0'+step)))
+		vp.Assume(k >= 0)
+		vp.Assume(k <= K)
+		b1 := make([]byte, K)
+		b2 := make([]byte, K)
+		// KF-C10-1 class, from the reference cursor
+		cur, _ := ref.Seek(0, io.SeekCurrent)
+		rem := int64(size) - cur
+		inCl := int64(uint64(cur) % bpc)
+		kf1 := inCl != 0 && cur < int64(size) && rem < int64(k) && rem < bpc-inCl
+		vp.Unwind(L + 3)
+		vp.NoPanic()
+		vp.KnownPanic("KF-C10-1", "fat12/file.go:158")
+		n1, r1 := fl.Read(b1[:k])
+		vp.AllowPanic()
+		vp.Unwind(16)
+		n2, r2 := ref.Read(b2[:k])
+		vp.AssertUnless("KF-C10-1", kf1, n1 == n2, "Read returns as many bytes as bytes.Reader.Read")
+		for i := 0; i < K; i++ {
+			vp.AssertUnless("KF-C10-1", kf1, b1[i] == b2[i], "Read delivers the bytes bytes.Reader.Read delivers")
+		}
+		c1, _ := fl.Seek(0, io.SeekCurrent)
+		c2, _ := ref.Seek(0, io.SeekCurrent)
+		vp.AssertUnless("KF-C10-1", kf1, c1 == c2, "cursor where bytes.Reader has it")
+		if r2 == io.EOF {
+			if k > 0 {
+				vp.Assert(r1 == io.EOF, "io.EOF where bytes.Reader reports it")
+				vp.Cover("both report EOF")
+			}
+		}
+		if r1 == io.EOF {
+			vp.Assert(c1 >= int64(size), "io.EOF only at the end")
+		} else if k > 0 {
+			vp.Assert(r1 == nil, "no other error")
+		}
+		if n1 > 0 {
+			if step == 1 {
+				vp.Cover("second read delivers bytes")
+			}
+		}
+	}
 }
